@@ -5,8 +5,12 @@ the "Type parsers" of `parser.rs` and of the type printer of `format.rs`; lemmas
 
   fuel_suffices, fuel_monotone, fuel_irrelevant     the fuel that ties the recursive knot
   parseType_total, parseBaseType_total, typeAlias_total     (T1) totality + progress + located errors
+  RoundTripStatement (full), roundtrip_partial             (T2) parse (print t ++ rest) = (t, rest)
+  roundtrip_refuted_on_head                                 the full statement is FALSE on HEAD (D3)
+  d1_old_print_rule_breaks_roundtrip                        the pre-dea6b02 printing rule breaks T2
+  PrintIdempotentStatement, print_idempotent_partial        (T3)
 -/
-import QuiverModel.Lemmas.Parse.Grammar
+import QuiverModel.Lemmas.Parse.RoundTrip
 import QuiverModel.Lemmas.Text.Basic
 namespace C18Types
 open QM.Parse QM.Text
@@ -116,5 +120,110 @@ theorem typeAlias_total (i : Str) :
     obtain ⟨pre, hpre⟩ := hs
     exact Or.inr ⟨pos, code, pre, rfl, hpre.symm, by rw [← hpre, utf8Len_append]⟩
   | out => exact absurd h (hno i (Nat.lt_succ_self _))
+
+/-! ## (T2) round trip
+
+`stopTd rest` is the explicit side condition on the text behind the printed type: it does not start
+with a character that could continue a type (letters, digits, `_ ? ! < [ ( ' % / . @ ^ \ #`), it is
+not whitespace followed by `(` (a bare tuple name is not accepted in front of that: defect D2), and
+after whitespace and comments there is no `|` or `&`. `WFType` is `Ty.wf` (decidable). -/
+
+/-- The full statement: every well-formed type AST is read back from its printed form. -/
+def RoundTripStatement : Prop :=
+  ∀ t : Ty, WFType t → ∀ rest : Str, stopTd rest = true →
+    parseType (printTy t ++ rest) = .ok t rest
+
+/-- **roundtrip_partial** (T2 on the fragment `Ty.frag`: primitives, alias references without
+    arguments not named like a primitive, `^`, resources, non-partial tuples — named or not, with
+    named or positional fields —, function types and unions, nested WITHOUT BOUND): the real
+    parser's model reads the printed text back to exactly the same AST and stops exactly at `rest`.
+    Missing cases (the full statement is `RoundTripStatement`): partial types, spreads and
+    `'alias[...]` tuples, intersections, applied aliases `'t<…>`, `^N`, process types, module types,
+    `'`/`'<…>`, and references named `int`/`bin`/`ref` — for the last one the full statement is
+    false on HEAD, see `roundtrip_refuted_on_head`. -/
+theorem roundtrip_partial (t : Ty) (hw : WFType t) (hf : t.frag = true) (rest : Str)
+    (hr : stopTd rest = true) : parseType (printTy t ++ rest) = .ok t rest := by
+  have h := (knot_good t.lvT).td t hf hw (Nat.le_refl _) rest hr
+  have hne : typeDefinition (t.lvT + 1) (printTy t ++ rest) ≠ .out := by
+    unfold typeDefinition; rw [h]; simp
+  have h1 := fuel_monotone (printTy t ++ rest) (t.lvT + 1)
+    (max (t.lvT + 1) ((printTy t ++ rest).length + 1)) (Nat.le_max_left _ _) hne
+  have h2 := fuel_irrelevant (printTy t ++ rest)
+    (max (t.lvT + 1) ((printTy t ++ rest).length + 1)) (by omega)
+  rw [← h2, h1]
+  exact h
+
+/-- the hypotheses are satisfiable by a non-trivial type: a nested union of named tuples with a
+    function-typed field and a type parameter reference:
+    `(A[x: 'int, f: #'t -> (Nil | Cons['t, ^])] | B[[\Res, 'u]] | ^)` followed by `, …` -/
+def exampleTy : Ty :=
+  .union [
+    .tuple (some "A".toList) [
+      .field (some "x".toList) (.prim .int),
+      .field (some "f".toList) (.func (.ident "t".toList [])
+        (.union [.tuple (some "Nil".toList) [] false,
+                 .tuple (some "Cons".toList) [.field none (.ident "t".toList []), .field none (.cycle none)] false]))] false,
+    .tuple (some "B".toList) [.field none (.tuple none [.field none (.resource "Res".toList), .field none (.ident "u".toList [])] false)] false,
+    .cycle none]
+
+example : printTy exampleTy = "(A[x: 'int, f: #'t -> (Nil | Cons['t, ^])] | B[[\\Res, 'u]] | ^)".toList := by
+  decide +kernel
+example : WFType exampleTy ∧ exampleTy.frag = true ∧ stopTd ", 'bin]".toList = true := by
+  decide +kernel
+example : parseType (printTy exampleTy ++ ", 'bin]".toList) = .ok exampleTy ", 'bin]".toList :=
+  roundtrip_partial exampleTy (by decide +kernel) (by decide +kernel) _ (by decide +kernel)
+
+/-- the side condition is necessary: behind a bare tuple name, a line that starts with `(` makes the
+    whole alias unreadable (defect D2, repaired in the formatter by 63d9fac) -/
+theorem stop_condition_necessary :
+    stopTd "\n(x) = y".toList = false ∧
+    (match parseType ("Foo".toList ++ "\n(x) = y".toList) with | .err _ _ => true | _ => false) = true := by
+  decide +kernel
+
+/-- **d1_old_print_rule_breaks_roundtrip**: with the printing rule before dea6b02 (an argument-less
+    reference named `int` printed `'int`) the round trip fails: the text reads back as the primitive
+    (defect D1). With the repaired rule the reference prints `<'int>` and reads back exactly. -/
+theorem d1_old_print_rule_breaks_roundtrip :
+    (match parseType "'int".toList with | .ok (.prim .int) [] => true | _ => false) = true ∧
+    Ty.prim .int ≠ Ty.ident "int".toList [] ∧
+    printTy (.ident "int".toList []) = "<'int>".toList ∧
+    (match parseType "<'int>".toList with
+      | .ok (.ident ['i', 'n', 't'] []) [] => true | _ => false) = true := by
+  refine ⟨by decide +kernel, by simp, by decide +kernel, by decide +kernel⟩
+
+/-- **roundtrip_refuted_on_head** (defect D3, HEAD 0428746): the full statement is false — a
+    reference named like a primitive is printed `<'int>` also directly behind `#` / `-> `, where
+    `function_input_type` / `function_output_type` have no `type_parameter` alternative. The AST is
+    one the parser produces (from `#(<'int>) -> 'int`). -/
+theorem roundtrip_refuted_on_head : ¬ RoundTripStatement := by
+  intro H
+  have h := H (.func (.ident "int".toList []) (.prim .int)) (by decide +kernel) [] (by decide +kernel)
+  have e : (match parseType (printTy (.func (.ident "int".toList []) (.prim .int)) ++ []) with
+      | .err _ _ => true | _ => false) = true := by decide +kernel
+  rw [h] at e
+  simp at e
+
+example : (match parseType "#(<'int>) -> 'int".toList with
+    | .ok (.func (.ident ['i', 'n', 't'] []) (.prim .int)) [] => true | _ => false) = true := by
+  decide +kernel
+
+/-! ## (T3) print idempotence -/
+
+/-- the full statement -/
+def PrintIdempotentStatement : Prop :=
+  ∀ t : Ty, WFType t → ∀ t' rest, parseType (printTy t) = .ok t' rest → printTy t' = printTy t
+
+/-- **print_idempotent_partial** (T3 on the fragment): printing what was read from a printed type
+    gives the same text. -/
+theorem print_idempotent_partial (t : Ty) (hw : WFType t) (hf : t.frag = true) (t' : Ty) (rest : Str)
+    (h : parseType (printTy t) = .ok t' rest) : printTy t' = printTy t := by
+  have := roundtrip_partial t hw hf [] (by decide)
+  rw [List.append_nil] at this
+  rw [this] at h
+  injection h with h1 _
+  rw [← h1]
+
+example : ∀ t' rest, parseType (printTy exampleTy) = .ok t' rest → printTy t' = printTy exampleTy :=
+  fun t' rest => print_idempotent_partial exampleTy (by decide +kernel) (by decide +kernel) t' rest
 
 end C18Types
